@@ -232,7 +232,7 @@ def model_check(rep, tier):
     rep.add_mc("ReductionsMachine pinned (negative control: RollContractOK violated as expected)", r)
     r = core.must_pass(core.tlc("MCReductionsFn", _cfg_fn(6 if quick else 8, "roll"), workers=core.NCPU, timeout=3000, heap="8g", defs=DEFS), "rolling fn scope")
     rep.add_mc("MCReductionsFn roll", r)
-    r = core.must_pass(core.tlc("MCReductionsFn", _cfg_fn(5 if quick else 7, "grp"), workers=core.NCPU, timeout=3000, heap="8g", defs=DEFS), "mean_grp fn scope")
+    r = core.must_pass(core.tlc("MCReductionsFn", _cfg_fn(5 if quick else 6, "grp"), workers=core.NCPU, timeout=3000, heap="8g", defs=DEFS), "mean_grp fn scope")
     rep.add_mc("MCReductionsFn grp", r)
 
 
